@@ -85,3 +85,55 @@ def lr_trace(text, cfg='cached', with_comments=False):
 
 def tree_line(tree, **kw):
     return proto.render(treedump.dump(tree, **kw))
+
+
+def parse_trace(text, cfg='cached', with_comments=False):
+    """
+    Like lr_trace but records the full token payload needed by drv_parse (stage S2b):
+    returns (request line for drv_parse, outcome)
+    """
+    import proto as _p
+    p = make_parser(cfg, with_comments)
+    events = []
+    lexer = p.lexer
+    orig_token = lexer.token
+
+    def enc(t, flag):
+        hid = getattr(t, 'hidden_tokens', None) or []
+        parts = [flag, t.type, _p.enc_str(t.value), str(t.lexpos), str(t.lineno), str(getattr(t, 'colno', 0)),
+                 str(lexer.lexpos), str(lexer.lineno), str(len(hid))]
+        for h in hid:
+            parts += [h.type, _p.enc_str(h.value), str(h.lexpos), str(h.lineno), str(h.colno)]
+        return ' '.join(parts)
+
+    def token():
+        t = orig_token()
+        if t is not None:
+            events.append(enc(t, 'T'))
+        else:
+            events.append("E $end ' 0 0 0 %d %d 0" % (lexer.lexpos, lexer.lineno))
+        return t
+    lexer.token = token
+    lr = p.parser
+    orig_err = lr.errorfunc
+
+    def errorfunc(tok):
+        n = len(events)
+        r = orig_err(tok)
+        del events[n:]
+        if r is not None:
+            events.append(enc(r, '!'))
+        return r
+    lr.errorfunc = errorfunc
+    try:
+        try:
+            tree = p.parse(text)
+            out = ('ok', tree)
+        except Exception as e:
+            out = ('err',) + exc_info(e)
+    finally:
+        lr.errorfunc = orig_err
+        lexer.token = orig_token
+    nl = lexer.newline_idx
+    req = 'parse %s %d NL %d %s EV %s' % (cfg, 1 if with_comments else 0, len(nl), ' '.join(str(i) for i in nl), ' '.join(events))
+    return req, out
